@@ -752,6 +752,13 @@ def run(ctx):
                             key='IpmiMsg.unpack:valid', what='IpmiMsg(ignore_sdu_length=%s).unpack of a well-formed PDU (type %d, %d '
                             'payload bytes): %s' % (qk, auth, n, 'exception class %d' % code if code else 'wrong payload'),
                             replay={'oracle': 'recv', 'input': {'dgram': d.hex(), 'quirk': qk}})
+                # EVERY length also extended by one pad-like byte (00 / ff / random), by two, and cut by one, under the
+                # strict setting: a tolerance that depends on the datagram's total length (alignment / "legacy pad"
+                # special cases) shows only at particular lengths
+                for ext in (b'\x00', b'\xff', b'\x00\x00', bytes([rng.randrange(256)])):
+                    recv_case(d + ext, False, 'extended-len-all')
+                if n >= 1:
+                    recv_case(d[:-1], False, 'truncated-len-all')
                 if n in (0, 1, 126, 127, 128, 129, 254, 255):
                     hl = 4 + (10 if auth == 0 else 26)
                     for qk in (False, True):
